@@ -17,6 +17,7 @@ import (
 
 	"verif/mc/enum"
 	"verif/mc/exact"
+	"verif/mc/geomgen"
 	"verif/mc/report"
 )
 
@@ -387,6 +388,27 @@ func runCase(c Case) (string, string) {
 			}
 		}
 	}
+	// memory layout and history: line and polygon with their vertex slices cut
+	// from one flat buffer each, clipped twice: the same result, buffers not
+	// written, and the first result intact afterwards
+	first := fmt.Sprint(out)
+	fl, wl := geomgen.FlatBacked(recv.(geom.Geom))
+	fp, wp := geomgen.FlatBacked(pg.(geom.Geom))
+	for round := 1; round <= 2; round++ {
+		var r2 geom.Linear
+		if p := try(func() { r2 = fl.(geom.Linear).Clip(fp.(geom.Polygonal)) }); p != "" {
+			return "flat-buffer-operands|panic", p
+		}
+		if w := wl() + wp(); w != "" {
+			return "flat-buffer-operands|caller-buffer-written", w
+		}
+		if s2 := fmt.Sprint(r2); s2 != first {
+			return fmt.Sprintf("flat-buffer-operands|round-%d|result-differs", round), fmt.Sprintf("own storage: %s; flat buffers: %s", first, s2)
+		}
+	}
+	if again := fmt.Sprint(out); again != first {
+		return "result-changed-by-later-clips", fmt.Sprintf("was %s, now %s", first, again)
+	}
 	return "", ""
 }
 
@@ -410,7 +432,7 @@ func main() {
 		return
 	}
 	rep = report.New("C14", tier, "model_checking")
-	rep.Rule = "E1: 15 polygonal shapes (boxes, triangles, L, C, pentagon, holes in both windings and closed spelling, multi-polygons, island in hole) as Polygon / MultiPolygon / *Bounds x every simple open polyline of 2 and 3 vertices over the lattice (i+.37, j+.41), i,j in {-1,1,3,5,7} (thorough: -1..7), plus two-member multi-line strings; every simple polyline of 4 and 5 vertices over the coarse lattice {-1,3,7}^2 (detours outside the bounding box; 5 vertices against 6 shapes, thorough all); the same pairs again with both operands rotated by 30 degrees and scaled by 1.7 (irrational coordinates, lengths scale by 1.7); pairs not in general position (exact test) or with a piece shorter than 1e-7 are skipped and counted. Oracle: reference inside length from exact crossing tests + even-odd classification of every piece; Length(result) equal (rel 1e-9); every result vertex within 1e-9 of the line and inside or on the polygon; empty iff the reference length is 0; the polygon argument is not modified; clip sequences on one shared polygon value, also after the value has been moved in place (history). Non-trivial = lines partly inside."
+	rep.Rule = "E1: 15 polygonal shapes (boxes, triangles, L, C, pentagon, holes in both windings and closed spelling, multi-polygons, island in hole) as Polygon / MultiPolygon / *Bounds x every simple open polyline of 2 and 3 vertices over the lattice (i+.37, j+.41), i,j in {-1,1,3,5,7} (thorough: -1..7), plus two-member multi-line strings; every simple polyline of 4 and 5 vertices over the coarse lattice {-1,3,7}^2 (detours outside the bounding box; 5 vertices against 6 shapes, thorough all); the same pairs again with both operands rotated by 30 degrees and scaled by 1.7 (irrational coordinates, lengths scale by 1.7); pairs not in general position (exact test) or with a piece shorter than 1e-7 are skipped and counted. Oracle: reference inside length from exact crossing tests + even-odd classification of every piece; Length(result) equal (rel 1e-9); every result vertex within 1e-9 of the line and inside or on the polygon; empty iff the reference length is 0; the polygon argument is not modified; the same clip twice more with both operands cut from flat vertex buffers (same result, buffers not written, first result intact); clip sequences on one shared polygon value, also after the value has been moved in place (history). Non-trivial = lines partly inside."
 	var lattice []exact.Pt
 	step := int64(2)
 	if tier == "thorough" {
